@@ -198,6 +198,8 @@ pub struct PairReport {
     pub mismatch_count: u64,
     pub mismatches: Vec<Value>,
     pub samples: Vec<Value>,
+    pub per_kind: HashMap<String, u64>,
+    pub per_kind_hostfree: HashMap<String, u64>,
 }
 
 pub trait FromHist<P: PT>: Sized {
@@ -412,7 +414,13 @@ where
         }
         if out.pan || out.ret != exp {
             rep.mismatch_count += 1;
-            if rep.mismatches.len() < max_mismatch {
+            let slot = format!("{}/{}", if out.pan { "pan" } else { "ret" }, op);
+            if !crate::replay::nonzero_host_pub(&row["h"]) {
+                *rep.per_kind_hostfree.entry(slot.clone()).or_default() += 1;
+            }
+            let n = rep.per_kind.entry(slot).or_default();
+            *n += 1;
+            if *n <= 6 && rep.mismatches.len() < max_mismatch * 4 {
                 rep.mismatches.push(json!({"kind": if out.pan {"pan"} else {"ret"}, "h": row["h"], "e": e,
                     "expected": exp, "got": out.ret, "row": {"r": row["r"], "fa": fa, "fb": fb}}));
             }
@@ -423,5 +431,6 @@ where
 pub fn pair_report_json(rep: &PairReport, ptype: &str, coll: &str) -> Value {
     json!({"ptype": ptype, "coll": coll, "rows": rep.rows, "executed": rep.executed, "states": rep.states,
         "pre_failed": rep.pre_failed, "skipped_unsupported": rep.skipped, "per_action": rep.per_action,
-        "mismatch_count": rep.mismatch_count, "mismatches": rep.mismatches, "samples": rep.samples})
+        "mismatch_count": rep.mismatch_count, "mismatches": rep.mismatches, "samples": rep.samples,
+        "per_kind": rep.per_kind, "per_kind_hostfree": rep.per_kind_hostfree})
 }
